@@ -467,6 +467,20 @@ func TrickyCases(rng *rand.Rand, prefix string) []Case {
 		b.f.Services = []svcdesc.Service{{Name: "Svc", Methods: ms}}
 		out = append(out, b.build("tricky:same-named-local-and-imported-response", "either", describe(ms)))
 	}
+	// a second file of the same Go package, without services, that holds a message with a reserved name (or another message)
+	for _, mn := range []string{"Manager", "Node", "Configuration", "QuorumSpec", "node", "Harmless"} {
+		n++
+		b := newBuilder(rng, fmt.Sprintf("%s%d", prefix, n))
+		b.dep = &svcdesc.File{Name: b.id + "/types.proto", Package: b.pkg, GoPackage: b.gopkg, Messages: []svcdesc.Message{msg(mn), msg("Payload")}}
+		b.f.Deps = append(b.f.Deps, b.dep.Name)
+		in := b.addMsg("Req")
+		pay := "." + b.pkg + ".Payload"
+		ms := []svcdesc.Method{{Name: "Q", In: in, Out: pay, Opts: svcdesc.Opts{Quorumcall: true}}, {Name: "M", In: pay, Out: b.addMsg("Nothing"), Opts: svcdesc.Opts{Multicast: true}}}
+		b.f.Services = []svcdesc.Service{{Name: "Svc", Methods: ms}}
+		c := b.build("tricky:message-named-"+mn+"-in-a-second-file-of-the-package", "either", describe(ms))
+		c.GenAlso = []string{b.dep.Name}
+		out = append(out, c)
+	}
 	mk("only-plain-rpc", func(b *builder) []svcdesc.Method {
 		in := b.addMsg("Req")
 		out := b.addMsg("Rep")
